@@ -22,6 +22,28 @@ def _gens(quick_num, thorough_num):
         # partial holders: the source lacks a data chunk during a download (pyramid intact); then reads, single-chunk reads, retries
         out.append(dict(mode="edges", spec="NodeGen.tla", cfg="NodeGenFocusD.cfg", depth=(3 if q else 4), max=(60 if q else 700),
                         name="part-edgesD", env={"VERIF_NODEMODE": "part"}, timeout=900))
+        # directories (several member files under one manifest root, uploaded as a tar), complete edge covers of small universes:
+        # - one uploaded root and cached roots sharing a one-chunk member file, repeated evictions (reference-count releases)
+        # - roots held partially: one member downloaded / read, single chunks read under the root's context, delete, restart
+        #   (availability bits are numbered over the data chunks of the whole root)
+        out.append(dict(mode="edges", spec="NodeGen.tla", cfg="NodeGenFocus%s.cfg" % ("G" if q else "H"), depth=(5 if q else 6),
+                        max=(40 if q else 400), name="dirgc1-edges (complete in quick)", env={"VERIF_NODEMODE": "dirgc1"}, timeout=900))
+        out.append(dict(mode="edges", spec="NodeGen.tla", cfg="NodeGenFocusG.cfg", depth=(2 if q else 3), max=(45 if q else 250),
+                        name="dirpart-edgesG (complete in quick)", env={"VERIF_NODEMODE": "dirpart"}, timeout=900))
+        # a collection racing with the complete download of another file (its puts commit inside the run)
+        out.append(dict(mode="edges", spec="NodeGen.tla", cfg="NodeGenFocusA.cfg", depth=(2 if q else 3), max=(20 if q else 60),
+                        name="racedl1-edgesA (complete in quick)", env={"VERIF_NODEMODE": "racedl1"}, timeout=900))
+        # a root that is cached (also only in part) and uploaded, in every order, with collections (one file; two in thorough)
+        out.append(dict(mode="edges", spec="NodeGen.tla", cfg="NodeGenFocus%s.cfg" % ("J" if q else "D"), depth=4, max=(25 if q else 200),
+                        name="partup-edges (complete in quick)", env={"VERIF_NODEMODE": "partup"}, timeout=900))
+        if not q:
+            out.append(dict(mode="edges", spec="NodeGen.tla", cfg="NodeGenFocusH.cfg", depth=5, max=300,
+                            name="dirgc-edgesH", env={"VERIF_NODEMODE": "dirgc"}, timeout=1500))
+            out.append(dict(mode="edges", spec="NodeGen.tla", cfg="NodeGenFocusA.cfg", depth=3, max=120,
+                            name="racedl-edgesA", env={"VERIF_NODEMODE": "racedl"}, timeout=1500))
+            # random walks over a directory, the single-file manifest of its first member and a file sharing its tail chunk
+            out.append(dict(mode="sim", spec="NodeGen.tla", cfg="NodeGenSimI.cfg", depth=depth, num=n, max=200, salt=7,
+                            name="walksI", timeout=900))
         return out
     return dict(quick=g("quick"), thorough=g("thorough"))
 
@@ -50,7 +72,16 @@ def _cor_c13(evs):
 
 
 def _cor_c15(evs):
-    i = _first(evs, lambda e: e["op"] in ("download", "read", "gc", "restart", "touch"))
+    # (not after a DELETE in the same scenario: a DELETE of a pinned reference takes the file out of C15's clauses)
+    i, deleted = None, False
+    for j, e in enumerate(evs):
+        if e.get("op") == "reset":
+            deleted = False
+        elif e["op"] == "delete":
+            deleted = True
+        elif not deleted and e["op"] in ("download", "read", "gc", "restart", "touch"):
+            i = j
+            break
     if i is None:
         return None
     f = sorted(evs[i]["st"]["files"])[0]
@@ -102,6 +133,7 @@ _COMMON = dict(
     judge=dict(spec="NodeTrace.tla", cfg="NodeTrace.cfg"),
     design=[dict(spec="MCNodeQ.tla", cfg="MCNodeR.cfg", workers=8, timeout=900, coverage=False),
             dict(spec="MCNodeQ.tla", cfg="MCNodeQ.cfg", workers=8, timeout=1500, thorough_only=True, coverage=False),
+            dict(spec="MCNodeQ.tla", cfg="MCNodeD.cfg", workers=8, timeout=1500, thorough_only=True, coverage=False),
             dict(spec="MCNode.tla", cfg="MCNode.cfg", workers=12, timeout=3000, thorough_only=True, coverage=False)],
     gen=_gens(6, 50),
     driver_timeout=5400,
@@ -111,9 +143,11 @@ _COMMON = dict(
               "index/record dumps judged by the TLA+ trace spec NodeTrace.tla",
     level_note="trusted: TLC; the driver's dump (verif hook VerifDump, public chunk-info getters, state-store iteration) and its "
                "naming of chunk addresses; the per-file chunk sets are recorded from an upload into an empty store; peer node, "
-               "route table, accounting, chain oracle are the repository's mocks / a second real node; bounded catalogue of 6 files "
-               "over 4 data blocks",
-    assumptions=["files are uploaded through POST /aurora as single-file manifests; 256 KiB blocks X,Y,Z and a 1000-byte tail",
+               "route table, accounting, chain oracle are the repository's mocks / a second real node; bounded catalogue of 7 files "
+               "and 3 two-member directories over 4 data blocks; in a collection raced by a download the store's own worker "
+               "goroutine (woken by the racing puts) is parked by the driver: the run under test is the synchronous one",
+    assumptions=["files are uploaded through POST /aurora as single-file manifests, or as directories of two member files (tar, "
+                 "Aurora-Collection) read one member at a time; 256 KiB blocks X,Y,Z and a 1000-byte tail",
                  "origin of a chunk = mode of the put that stored it (a later upload of an already cached chunk does not change it)",
                  "collection is run synchronously through the verif hook with the scenario's capacity; the background worker sleeps",
                  "one driver goroutine per scenario; asynchronous access updates are awaited before each dump"],
@@ -164,7 +198,9 @@ def _ops(s):
 
 _RULE = ("TLC -simulate walks over Node.tla (4 file sets with overlap shapes: prefix extension, identical content under two names, "
          "repeated chunk, single-chunk file inside another, chunk-aligned prefix + tail) x operations upload[pin]/download[range]/"
-         "read/touch/pin/unpin (API and service)/delete/gc(cap)/restart; distinct = distinct (file set, operation sequence); ")
+         "read/touch/pin/unpin (API and service)/delete/gc(cap)[raced by read/touch/download of another file]/restart, plus edge "
+         "covers of focused sub-models (deletion, pin, partial-holder, directory eviction, directory member, racing-download "
+         "histories); distinct = distinct (file set, operation sequence); ")
 
 _entry("C12", "the design model satisfies 'a collection deletes no pinned/uploaded chunk and changes no pin counter' on every behaviour of the "
        "bounded configuration; the real node's dumps before/after every synchronous collection are judged against the same statement",
